@@ -31,6 +31,10 @@ QUERIES = ["current_time", "available_operations", "raw_ready_operations", "unsc
 
 
 def bounds(tier):
+    return _bounds(tier) + "; observed: all library observers subscribed, all 16 queries in every state, shapes <=3 ops and (2,2) M<=2 (thorough: <=4 ops)"
+
+
+def _bounds(tier):
     if tier == "quick":
         return ("ordered shapes <=3 jobs and <=3 operations plus (2,2): every machine assignment M<=2 (non-flexible), "
                 "every flexible structure M<=2 on <=2 operations; all interleavings x machine choices; in every state all "
